@@ -187,12 +187,14 @@ func checkC01(c *Ctx) {
 
 	// ---- C01.map
 	if fd, _ := u.funcDecl("pkg/syntax/zh", "parseExpressionLv3"); fd != nil {
-		o := findLocal(info, fd, "logicTypeMap")
-		pe := newPE(u, info, fd)
+		// the comparison table is the map literal of the function (whatever the variable is called)
 		var lit *ast.CompositeLit
-		if o != nil {
-			lit = pe.findListLiteral(o)
-		}
+		ast.Inspect(fd, func(n ast.Node) bool {
+			if cl, ok := n.(*ast.CompositeLit); ok && lit == nil && isMapType(info.TypeOf(cl)) && len(cl.Elts) >= 4 {
+				lit = cl
+			}
+			return true
+		})
 		got := map[int64]int64{}
 		if lit != nil {
 			for _, el := range lit.Elts {
@@ -712,68 +714,44 @@ func checkLogicCombiner(c *Ctx, u *Universe, logicConsts map[string]int64) {
 	}
 	info := p.TypesInfo
 	pos := u.pos(fd.Pos())
-	typeObj := findLocal(info, fd, "logicType")
-	if typeObj == nil {
-		R.undecided("C01.short", "pkg/exec.evalLogicCombiner", pos, "operator variable not found")
-		return
-	}
 	for _, op := range []string{"LogicAND", "LogicOR"} {
 		for _, L := range []bool{false, true} {
 			for _, Rv := range []bool{false, true} {
 				key := fmt.Sprintf("%s left=%v right=%v", op, L, Rv)
 				pe := newPE(u, info, fd)
 				evalCalls := 0
+				// the operator is whatever is read from the Type field of the *syntax.LogicExpr
+				pe.selOracle = func(pe *PE, st *peState, sel *ast.SelectorExpr) (Val, bool) {
+					if sel.Sel.Name == "Type" && namedTypeIs(info.TypeOf(sel.X), "pkg/syntax", "LogicExpr") {
+						return intVal(logicConsts[op]), true
+					}
+					return Val{}, false
+				}
 				pe.oracle = func(pe *PE, st *peState, call *ast.CallExpr, id string) (Val, bool) {
 					switch id {
 					case "pkg/value.Bool.GetValue":
+						// which operand: follow the receiver back to expr.LeftExpr / expr.RightExpr
 						if sel, ok := call.Fun.(*ast.SelectorExpr); ok {
-							if rid, ok := sel.X.(*ast.Ident); ok {
-								if strings.Contains(strings.ToLower(rid.Name), "left") {
-									return boolVal(L), true
-								}
-								if strings.Contains(strings.ToLower(rid.Name), "right") {
-									return boolVal(Rv), true
-								}
+							switch originField(info, fd, sel.X, "LeftExpr", "RightExpr") {
+							case "LeftExpr":
+								return boolVal(L), true
+							case "RightExpr":
+								return boolVal(Rv), true
 							}
 						}
 					}
 					return Val{}, false
 				}
-				st := newState()
-				// logicType := expr.Type
-				outs := func() []Outcome {
-					var res []Outcome
-					// execute with logicType preset: skip its defining statement by presetting after it runs
-					pe2 := pe
-					s0 := st
-					for i, stmt := range fd.Body.List {
-						os := pe2.execStmt(s0, stmt)
-						if len(os) != 1 || os[0].Kind != "next" {
-							return append(res, os...)
-						}
-						s0 = os[0].St
-						if as, ok := stmt.(*ast.AssignStmt); ok && len(as.Lhs) == 1 && identObj(info, as.Lhs[0]) == typeObj {
-							s0.env[typeObj] = intVal(logicConsts[op])
-							return pe2.exec(s0, fd.Body.List[i+1:])
-						}
-					}
-					return res
-				}()
+				outs := pe.exec(newState(), fd.Body.List)
 				_ = evalCalls
 				if pe.failed != "" {
 					R.undecided("C01.short", key, pos, pe.failed)
 					continue
 				}
-				// keep the paths on which both type assertions succeeded
+				// keep the paths that return no error (both operands evaluated to booleans)
 				var good []Outcome
 				for _, o := range outs {
-					neg := false
-					for _, a := range o.St.assumed {
-						if strings.HasPrefix(a, "!(ok)") || a == "!ok" || strings.HasPrefix(a, "err != nil") {
-							neg = true
-						}
-					}
-					if !neg {
+					if o.Kind == "return" && len(o.RetV) == 2 && o.RetV[1].K == vNil {
 						good = append(good, o)
 					}
 				}
